@@ -70,11 +70,26 @@ def normalize(case):
             seen.add(ni)
             refs.append([ni, bool(r[1])])
         files.append({"kind": f["kind"], "defs": sorted(defs), "refs": sorted(refs)})
+    # A name that is defined nowhere and referenced from two plain objects, once strongly and once weakly, in
+    # either order (constructed: the last name loses its definitions; GNU ld/lld report the strong reference
+    # whatever the order).
+    mix = case.get("undef_mix")
+    objs_idx = [i for i, f in enumerate(files) if f["kind"] == "obj"]
+    mixed_name = None
+    if mix and len(objs_idx) >= 2:
+        mixed_name = nn - 1
+        for f in files:
+            f["defs"] = [d for d in f["defs"] if d[0] != mixed_name]
+            f["refs"] = [r for r in f["refs"] if r[0] != mixed_name]
+        a, b = objs_idx[0], objs_idx[-1]
+        first_weak = mix == "weak-then-strong"
+        files[a]["refs"] = sorted(files[a]["refs"] + [[mixed_name, first_weak]])
+        files[b]["refs"] = sorted(files[b]["refs"] + [[mixed_name, not first_weak]])
     # Unless the case asks for undefined names, give every referenced-but-undefined name a
     # definition (file and strength chosen by the generated `filler`).
     if not case.get("undef_ok"):
         for ni in range(nn):
-            if any(r[0] == ni for f in files for r in f["refs"]) and \
+            if ni != mixed_name and any(r[0] == ni for f in files for r in f["refs"]) and \
                     not any(d[0] == ni for f in files for d in f["defs"]):
                 where, strength = case["filler"][ni]
                 tgt = files[where % len(files)]
@@ -126,6 +141,7 @@ def raw_strategy(max_files):
         "muldefs": st.integers(0, len(MULDEFS) - 1),
         "pie": st.booleans(),
         "undef_ok": st.sampled_from([False, False, False, True]),
+        "undef_mix": st.sampled_from([None, None, None, None, "strong-then-weak", "weak-then-strong"]),
         "filler": st.lists(st.tuples(st.integers(0, 6), st.sampled_from(STRENGTHS)).map(list), min_size=4, max_size=4),
     })
 
@@ -320,6 +336,9 @@ def classify(case, m):
             nontrivial = True
         if not cands:
             classes.add("undefined-name")
+            order = [r[1] for f in case["files"] if f["kind"] == "obj" for r in f["refs"] if r[0] == ni]
+            if True in order and False in order:
+                classes.add("undefined-name:" + ("weak-ref-first" if order[0] else "strong-ref-first") + "-mixed")
     if m["error"]:
         nontrivial = True
         classes.add("expect-error:" + m["error"])
